@@ -62,11 +62,57 @@ def top_function(fb, f):
     return g
 
 
+def helper_entry_state(eng, fb, f):
+    """a private member function that takes lock objects by reference inherits, for each such
+    parameter, the state it has at EVERY call site inside the class (calls on this)"""
+    if f.access != "private" or f.kind in ("ctor", "dtor") or not f.rec:
+        return None
+    lps = [(i, p) for i, p in enumerate(f.params) if is_lock_carrier(p.get("type", "")) and p.get("ref")]
+    if not lps:
+        return None
+    key = ("hes", f.unit.name, f.id)
+    if key in eng._summ:
+        return eng._summ[key]
+    eng._summ[key] = None
+    states = {}
+    ncalls = 0
+    for g in f.unit.functions:
+        if g.invalid or g is f:
+            continue
+        top = top_function(fb, g) if g.is_lambda else g
+        if top is None or top.rec != f.rec:
+            continue
+        for st in g.stmts.values():
+            if st["k"] == "CXXMemberCallExpr" and (st.get("callee") or {}).get("id") == f.id and \
+                    path(g, g.s(st["obj"])) == "this":
+                ncalls += 1
+                la = locks_of(eng, fb, g)
+                pos = g.pos_of(st)
+                for i, p in lps:
+                    a = g.s(st["args"][i]) if i < len(st["args"]) else None
+                    k = la.key_of_expr(a) if a is not None else None
+                    v = la.state_at(pos).get(k) if pos is not None else None
+                    states.setdefault(p["name"], []).append(v)
+    res = {}
+    if ncalls:
+        for name, vs in states.items():
+            if vs and all(v is not None and v == vs[0] for v in vs):
+                res["p:" + name] = vs[0]
+    eng._summ[key] = res or None
+    return eng._summ[key]
+
+
 def locks_of(ctx_or_eng, fb, f):
     """lock analysis of f; for a lambda that is passed directly to a call, the
     locks held by the enclosing function at that call are inherited"""
     eng = ctx_or_eng
     if not f.is_lambda:
+        es = helper_entry_state(eng, fb, f)
+        if es:
+            key = ("helper", f.unit.name, f.id)
+            if key not in eng._la:
+                eng._la[key] = LockAnalysis(eng, f, entry_state=es)
+            return eng._la[key]
         return eng.locks(f)
     key = ("lam", f.unit.name, f.id)
     if key in eng._la:
@@ -225,7 +271,7 @@ def check_guarded_fields(ctx, rid, cls, only_fields=None, doc=None, only_functio
                 ok = pos is not None and la.holds(pos, guard, need)
                 if not ok:
                     detail = "needs %s in mode %s; held here: %s" % (ent["guard"], need, _fmt_held(la, pos))
-            if not ok and top.access == "private" and not f.is_lambda and hs is None:
+            if not ok and top.access == "private" and hs is None:
                 # A2(b): precondition of a private helper, checked at its callers
                 requires.setdefault(top.id, []).append((guard, need, site, what, top, inst))
                 continue
